@@ -2,6 +2,7 @@ import PedVerif.Props.CheckerIR
 import PedVerif.Lemmas.CheckerEnvs
 import PedVerif.Lemmas.CheckerNoTV
 import PedVerif.Lemmas.CallLayer4
+import PedVerif.Gen.TypeVars
 /-!
 # C08 — checking failures surface only as PedanticException (checker level)
 
@@ -159,3 +160,42 @@ theorem receiver_by_keyword_accepted (hfix : receiverMayBeKeyword = true) :
     | decide
 
 end PedVerif.Call
+
+/-! ### Reads of what the library stored on an instance, when the class defines `__getattr__`
+
+In a `@pedantic_class` the user's `__getattr__` is a checked method: before its body runs, the wrapper asks for the type variables of
+the instance, i.e. reads `TYPE_VAR_ATTR_NAME` / `__orig_class__` / the already-checked mark again.  A read with `getattr` / `hasattr`
+of an attribute that is not there yet falls back to that `__getattr__` - and never comes back (RecursionError out of the very first
+call, the constructor).  The repaired code reads with `object.__getattribute__` (fact `storedStateReadDirect`). -/
+namespace PedVerif.StoredRead
+open PedVerif.Gen.TypeVars
+
+inductive Out where
+  | value (stored : Bool)     -- the stored object (`true`) or the default (`false`)
+  | recursionError
+deriving DecidableEq, Repr
+
+/-- `direct`: the read does not fall back to `__getattr__`; `present`: the attribute is on the instance; the `Nat`: frames left -/
+def read (direct present : Bool) : Nat → Out
+  | 0 => .recursionError
+  | fuel + 1 =>
+    if present then .value true
+    else if direct then .value false
+    else read direct present fuel     -- `__getattr__`'s wrapper performs the same read before the body of `__getattr__` runs
+
+theorem read_direct (present : Bool) (fuel : Nat) : read true present (fuel + 1) = .value present := by
+  cases present <;> simp [read]
+
+/-- the unrepaired read: with the attribute missing no stack depth suffices -/
+theorem read_fallback_never_returns (fuel : Nat) : read false false fuel = .recursionError := by
+  induction fuel with
+  | zero => rfl
+  | succ n ih => simpa [read] using ih
+
+theorem cfg_storedStateReadDirect : storedStateReadDirect = true := by decide
+
+/-- the current code: the read returns what is stored, or the default - user code is not entered, whatever the stack depth left -/
+theorem stored_read_returns (present : Bool) (fuel : Nat) : read storedStateReadDirect present (fuel + 1) = .value present := by
+  rw [cfg_storedStateReadDirect]; exact read_direct present fuel
+
+end PedVerif.StoredRead
